@@ -23,6 +23,7 @@ const (
 	EvUnlock         // write lock released
 	EvPoolGet        // about to Get from a pool
 	EvPoolPut        // about to Put into a pool
+	EvAtomic         // about to perform a sync/atomic operation; obj identifies the variable
 )
 
 // Hook receives every announced event. It may block the calling goroutine
@@ -61,6 +62,9 @@ func fire(kind int, obj uintptr, name string) {
 	}
 	hook.Load().(Hook)(kind, obj, name)
 }
+
+// Fire announces an event on behalf of the atomic shim.
+func Fire(kind int, obj uintptr) { fire(kind, obj, "") }
 
 // Enter is inserted by the instrumenter at the top of every function of the
 // package under test.
